@@ -34,7 +34,8 @@ type c02Scenario struct {
 	TLSSub bool `json:"tls_subpath,omitempty"`
 	// ShortTT: the target timeout (which bounds the wait for response headers only) is shorter than
 	// the time the slow in-flight responses need; they are all streamed (headers at once, second
-	// half of the body after SlowLat) and must still arrive whole: the drain timeout is 5s
+	// half of the body after SlowLat) and must still arrive whole: the drain timeout is 5s. The deploy
+	// timeout of these redeploys is 250ms: enough for the new targets, far less than the drain needs
 	ShortTT bool `json:"short_target_timeout,omitempty"`
 }
 
@@ -80,7 +81,7 @@ func c02Gen(rng *rand.Rand, idx int, thorough bool) c02Scenario {
 		return sc
 	case 5: // as 2, with a target timeout far below the duration of the streamed in-flight responses
 		sc.Delays = uni(1)
-		sc.Slow, sc.SlowLat = 3, 300*time.Millisecond+OffTarget
+		sc.Slow, sc.SlowLat = 3, 700*time.Millisecond+OffTarget
 		sc.ShortTT = true
 		sc.ReqDelays = rd(6)
 		sc.ArrStep = 10 * time.Millisecond
@@ -112,7 +113,7 @@ func c02Gen(rng *rand.Rand, idx int, thorough bool) c02Scenario {
 	sc.TLSSub = rng.IntN(5) == 0
 	sc.ShortTT = sc.Slow > 0 && rng.IntN(3) == 0
 	if sc.ShortTT {
-		sc.SlowLat += 300 * time.Millisecond // still in flight well after the drain has begun
+		sc.SlowLat += 600 * time.Millisecond // still in flight well after the drain has begun
 	}
 	return sc
 }
@@ -153,6 +154,10 @@ func c02Run(t *testing.T, run *Run, sc c02Scenario) {
 	}
 	const svc = "svc"
 	drainTO := 5 * time.Second
+	deployTO := 5 * time.Second
+	if sc.ShortTT {
+		deployTO = 250 * time.Millisecond
+	}
 	gen := func(g, n int, tag string) []string {
 		var out []string
 		for i := 0; i < n; i++ {
@@ -268,9 +273,9 @@ func c02Run(t *testing.T, run *Run, sc c02Scenario) {
 		w.At(t0, func() {
 			var c *CmdRec
 			if sc.Slot == "rollout" {
-				c = w.RolloutDeploy(svc, newT, 5*time.Second, drainTO)
+				c = w.RolloutDeploy(svc, newT, deployTO, drainTO)
 			} else {
-				c = w.Deploy(svc, newT, so, to, 5*time.Second, drainTO)
+				c = w.Deploy(svc, newT, so, to, deployTO, drainTO)
 			}
 			w.mu.Lock()
 			cmds = append(cmds, c)
